@@ -146,6 +146,10 @@ def o_damage(case):
             sock = ScriptedSocket(evs + ["close"])
             sock.budget = 6 * len(data) + 8 * len(evs) + 256
             rdr = RTCMReader(sock, quitonerror=qoe, errorhandler=handler, bufsize=case.get("bufsize", 4096))
+        elif case.get("pipe"):
+            from pv.doubles import pipe_like
+
+            rdr = RTCMReader(pipe_like(data, case["pipe"]), quitonerror=qoe, errorhandler=handler)
         else:
             rdr = RTCMReader(io.BytesIO(data), quitonerror=qoe, errorhandler=handler)
         events = []
@@ -248,6 +252,8 @@ def o_damage(case):
     cls.append("handler-" + case.get("handler", "function"))
     if case.get("sock"):
         cls.append("socket-with-gaps-between-items" if any(case["sock"]) else "socket")
+    if case.get("pipe") and not case.get("sock"):
+        cls.append("non-seekable-buffered-stream")
     if case.get("handoff"):
         cls.append("reader-handed-to-another-thread")
     return Res(nontrivial=sandwiched, classes=sorted(set(cls)))
@@ -271,7 +277,7 @@ def s_damage(draw, tier):
                 reps.append(streams.item("frame", base, repeat=True))
         k = draw(st.integers(0, len(items)))
         items = items[:k] + reps + items[k:]
-    return {"items": items, "mode": draw(st.sampled_from(["ignore", "log-handler", "log-nohandler", "raise"])), "handler": draw(st.sampled_from(["function", "collector", "bound-method", "returns-true", "returns-count", "extra-default-parameter", "varargs", "object-with-sink-like-attributes", "object-with-none-attributes", "partial"])), "handoff": draw(st.integers(0, 3)) == 0, **({"sock": draw(st.lists(st.sampled_from([0, 1, 1]), min_size=1, max_size=6)), "bufsize": draw(st.sampled_from([1, 16, 4096]))} if draw(st.integers(0, 3)) == 0 else {})}
+    return {"items": items, "mode": draw(st.sampled_from(["ignore", "log-handler", "log-nohandler", "raise"])), "handler": draw(st.sampled_from(["function", "collector", "bound-method", "returns-true", "returns-count", "extra-default-parameter", "varargs", "object-with-sink-like-attributes", "object-with-none-attributes", "partial"])), "handoff": draw(st.integers(0, 3)) == 0, "pipe": draw(st.sampled_from([0, 0, 0, 1, 16, 8192])), **({"sock": draw(st.lists(st.sampled_from([0, 1, 1]), min_size=1, max_size=6)), "bufsize": draw(st.sampled_from([1, 16, 4096]))} if draw(st.integers(0, 3)) == 0 else {})}
 
 
 def e_tiny(tier, shard, nshards):
@@ -332,7 +338,7 @@ SUBS = [
         enum=e_all,
         examples=(250, 5000),
         rule="see property rule",
-        need={"reader-handed-to-another-thread": 1, "two-byte-payload-all-single-bit-damage": 4096, "re-broadcast-frame-damaged-twice": 1, "damaged-frame-with-sync-like-payload": 1, "long-run-of-damaged-frames": 1, "handler-collector": 1, "handler-returns-true": 1, "handler-object-with-sink-like-attributes": 1, "handler-object-with-none-attributes": 1, "socket-with-gaps-between-items": 1, "damage-in-crc": 1, "damage-in-payload": 1, "damage-in-straddle": 1, "adjacent-damaged": 1, "raise": 1, "log-nohandler": 1},
+        need={"reader-handed-to-another-thread": 1, "two-byte-payload-all-single-bit-damage": 4096, "re-broadcast-frame-damaged-twice": 1, "damaged-frame-with-sync-like-payload": 1, "long-run-of-damaged-frames": 1, "handler-collector": 1, "non-seekable-buffered-stream": 1, "handler-returns-true": 1, "handler-object-with-sink-like-attributes": 1, "handler-object-with-none-attributes": 1, "socket-with-gaps-between-items": 1, "damage-in-crc": 1, "damage-in-payload": 1, "damage-in-straddle": 1, "adjacent-damaged": 1, "raise": 1, "log-nohandler": 1},
         sample=_sample,
     ),
 ]
